@@ -83,12 +83,13 @@ func (lw *Lowered) connect(b *B, from *port, to *Node, cond *Cond, blk *Block, i
 // lower returns the entry node and the open exit (nil = terminal block).
 func (lw *Lowered) lower(b *B, blk *Block) (entry *Node, exit *port) {
 	if blk.Wrap > 0 {
-		inner := *blk
-		inner.Wrap = blk.Wrap - 1
+		w := blk.Wrap
+		blk.Wrap = w - 1 // (temporarily; the same block object must reach TaskOf)
 		sub := b.Add(KSub)
 		ib := b.Sub()
 		sub.Inner = ib.G
-		lw.lowerTop(ib, &inner)
+		lw.lowerTop(ib, blk)
+		blk.Wrap = w
 		return sub, &port{node: sub}
 	}
 	switch blk.K {
